@@ -92,6 +92,8 @@ func envOr(k, d string) string {
 	return d
 }
 
+var partialRun bool
+
 type knownFinding struct {
 	Property string
 	Harness  string
@@ -280,6 +282,7 @@ func run(id, tier, only, repo, verifDir, solver string, verbose, noReplay bool, 
 	if violations > 0 {
 		exit = 1 // a natively reproduced violation outranks mismatches and inconclusive parts
 	}
+	partialRun = only != "" || noReplay
 	writeEvidence(verifDir, id, tier, seed, results, replayNotes, violations, knownHits, validated, time.Since(t0), loaded.LoadTime, solver, tc)
 	fmt.Printf("[%s] done: exit=%d violations=%d known=%d inconclusive=%d wall=%.1fs\n", id, exit, violations, knownHits, inconclusive, time.Since(t0).Seconds())
 	return exit
@@ -416,7 +419,7 @@ func TestVerifReplay(t *testing.T) {
 }
 
 func writeEvidence(verifDir, id, tier string, seed int, results []*gosym.HarnessResult, replayNotes []string, violations, knownHits, validated int, wall, load time.Duration, solver string, tc tierCfg) {
-	var paths, completed, queries, asserts, steps, infeasible int64
+	var paths, completed, queries, asserts, steps, infeasible, decisions int64
 	funcs := map[string]bool{}
 	models := map[string]bool{}
 	var samples []any
@@ -431,6 +434,7 @@ func writeEvidence(verifDir, id, tier string, seed int, results []*gosym.Harness
 		completed += r.Completed
 		infeasible += r.Infeasible
 		queries += r.Queries
+		decisions += r.Decisions
 		asserts += r.Asserts
 		steps += r.Steps
 		solverNs += r.Stats.NanosBusy
@@ -486,11 +490,12 @@ func writeEvidence(verifDir, id, tier string, seed int, results []*gosym.Harness
 		"violations":  violations,
 		"coverage": map[string]any{
 			"states":                        paths,
-			"transitions":                   queries,
+			"transitions":                   queries + decisions,
+			"decisions_explored":            decisions,
 			"traces_validated_against_impl": validated,
 			"samples":                       samples,
 			"exhaustive":                    len(incon) == 0,
-			"explanation":                   "bounded symbolic execution of the real code from go/ssa (regenerated from the working tree on this run): states = execution paths explored to completion or pruned as infeasible, transitions = SMT queries discharged (branch feasibility + assertion obligations), traces_validated_against_impl = counterexamples replayed natively against the compiled code",
+			"explanation":                   "bounded symbolic execution of the real code from go/ssa (regenerated from the working tree on this run): states = execution paths explored to completion or pruned as infeasible, transitions = SMT queries discharged (branch feasibility + assertion obligations) plus branch/choice/schedule decisions taken along the explored paths, traces_validated_against_impl = counterexamples replayed natively against the compiled code",
 			"paths_completed":               completed,
 			"paths_infeasible":              infeasible,
 			"obligations":                   asserts,
@@ -522,5 +527,9 @@ func writeEvidence(verifDir, id, tier string, seed int, results []*gosym.Harness
 		},
 	}
 	os.MkdirAll(filepath.Join(verifDir, "evidence"), 0o755)
-	writeJSON(filepath.Join(verifDir, "evidence", id+".json"), ev)
+	name := id + ".json"
+	if partialRun {
+		name = id + ".partial.json" // development runs (--harness / --no-replay) never overwrite the evidence
+	}
+	writeJSON(filepath.Join(verifDir, "evidence", name), ev)
 }
